@@ -12,6 +12,7 @@ from ..core import Violation
 from ..gen import prob
 from ..observe import run_async, run_sync
 from ..sched import run_scheduled
+from ..observe import arun as _arun
 
 ID = "C11"
 LEVEL = "fault_enumeration"
@@ -252,7 +253,7 @@ def check_case(case, ev):
                             if runner == "sync":
                                 res = SyncRunner().map(g, mv, map_over=mapped["param"], error_handling=mode)
                             else:
-                                res = asyncio.run(AsyncRunner().map(g, mv, map_over=mapped["param"], error_handling=mode))
+                                res = _arun(AsyncRunner().map(g, mv, map_over=mapped["param"], error_handling=mode))
                         except Exception as e:  # noqa: BLE001
                             if mode != "raise" or e is not ctx.injected.get(failing[0]):
                                 raise Violation("c11.map_error", f"[{tag}] raised {type(e).__name__}: {str(e)[:200]}", got=type(e).__name__) from None
